@@ -1,0 +1,57 @@
+//go:build verif
+
+package protocol
+
+import "sync"
+
+// Page-event recorder for the /verif harness (build tag `verif` only): the reference-count protocol of
+// buffer.go (newPage from the pool or fresh, contiguousPages.ref, page.unref).  Pages are reported as small
+// ids in order of first appearance.  Meant for single-goroutine scenarios (the counters are atomics without a
+// lock, so the recorded order is the operation order only when operations do not overlap).
+
+const verifPagesOn = true
+
+var verifPages struct {
+	mu     sync.Mutex
+	on     bool
+	ids    map[*page]int
+	events []VerifPageEvent
+}
+
+// VerifPageEvent is one page operation: Kind is "alloc", "reuse", "ref" or "unref".
+type VerifPageEvent struct {
+	Kind string
+	Page int
+}
+
+func verifPageEvent(kind string, p *page) {
+	verifPages.mu.Lock()
+	if verifPages.on {
+		id, ok := verifPages.ids[p]
+		if !ok {
+			id = len(verifPages.ids)
+			verifPages.ids[p] = id
+		}
+		verifPages.events = append(verifPages.events, VerifPageEvent{Kind: kind, Page: id})
+	}
+	verifPages.mu.Unlock()
+}
+
+// VerifPagesStart clears the log and starts recording page events.
+func VerifPagesStart() {
+	verifPages.mu.Lock()
+	verifPages.on = true
+	verifPages.ids = map[*page]int{}
+	verifPages.events = nil
+	verifPages.mu.Unlock()
+}
+
+// VerifPagesStop stops recording and returns the recorded events.
+func VerifPagesStop() []VerifPageEvent {
+	verifPages.mu.Lock()
+	defer verifPages.mu.Unlock()
+	verifPages.on = false
+	ev := verifPages.events
+	verifPages.events = nil
+	return ev
+}
